@@ -4,8 +4,28 @@
   executable model in Model/Coords.lean, for every rational input (no bound on sizes).
 -/
 import VerdeModel.Lemmas.Coords
+import VerdeModel.Gen.Coords
 namespace Verde.C07
 open Verde
+
+/-! ### Bridge: `spacing_to_size` as regenerated from /repo's source text on every run equals the model's. -/
+theorem gen_spacing_to_size_region (s t sp : Rat) :
+    Gen.spacingToSize s t sp "region" = .ok (spacingToSize s t sp true) := by
+  unfold Gen.spacingToSize spacingToSize
+  have h1 : (["spacing", "region"].contains "region") = true := by decide
+  simp only [h1, not_true_eq_false, if_false, if_true]
+  congr 1
+  simp only [Prod.mk.injEq, true_and]
+  split_ifs <;> push_cast <;> ring
+theorem gen_spacing_to_size_spacing (s t sp : Rat) :
+    Gen.spacingToSize s t sp "spacing" = .ok (spacingToSize s t sp false) := by
+  unfold Gen.spacingToSize spacingToSize
+  have h2 : ¬ ("spacing" = "region") := by decide
+  simp [h2]
+theorem gen_spacing_to_size_bad_adjust (s t sp : Rat) (adj : String) (h1 : adj ≠ "spacing") (h2 : adj ≠ "region") :
+    Gen.spacingToSize s t sp adj = .error .valueError := by
+  unfold Gen.spacingToSize
+  simp [h1, h2]
 
 /-- `round` is nearest-integer with ties to even. -/
 theorem round_nearest (q : Rat) : |(roundHalfEven q : Rat) - q| ≤ 1/2 := roundHalfEven_near q
